@@ -15,7 +15,7 @@ UNIQUE = ['Smtb.Properties.C06.toReducedBigEndian_unique', 'Smtb.Properties.C06.
 
 def run(ctx):
     common.go_build(['trace', 'corrcircuit', 'xtool'])
-    common.lake_build(['Smtb.Properties.C03', 'Smtb.Properties.C08', 'Smtb.Properties.C12', 'driver'])
+    common.lake_build(['Smtb.Properties.C03', 'Smtb.Properties.C08', 'driver'])
     common.audit(ctx, 'Smtb/Properties/C03.lean', THEOREMS)
     common.audit(ctx, 'Smtb/Proofs/BN254Prime.lean', ['Smtb.Pratt.bn254r_prime'])
     common.audit(ctx, 'Smtb/Properties/C08.lean', PACK)       # the hashed bit string IS the big-endian packing; packing injective
@@ -28,12 +28,15 @@ def run(ctx):
         "InputHash being the only public variable: regenerated struct-tag facts (C12 theorems) + GetNbPublicVariables() = 2 observed on the compiled systems",
     ]
     # struct tags: one public input
+    facts_err = None
     try:
         common.regen_facts()
+        common.lake_build(['Smtb.Properties.C12'])
         common.audit(ctx, 'Smtb/Properties/C12.lean', ['Smtb.Properties.C12.insertion_one_public', 'Smtb.Properties.C12.deletion_one_public'])
     except common.TieBroken as t:
-        ctx.oblige('T-facts: InputHash is the only ,public field', False, t.detail[:200])
-        raise
+        # keep going: the compiled systems' public-wire count below gives the concrete observation
+        ctx.oblige('T-facts: InputHash is the only ,public field', False, t.detail[-300:])
+        facts_err = t
     common.gates_tie(ctx)
     o = '--opaque=Poseidon2,KeccakGadget'
     dims = [(3, 2), (1, 1), (2, 16), (30, 4)] + ([(2, 3), (8, 7), (20, 100), (31, 2)] if ctx.thorough else [])
@@ -62,6 +65,9 @@ def run(ctx):
     if tmism:
         replay = common.write_replay(ctx, 'tie', {'kind': 'tie', 'tie': 'T-trace', 'mismatches': tmism[:5]})
         raise Violation('T-trace broken: ' + json.dumps(tmism[0])[:500], replay, found_input=False)
+    if facts_err:
+        replay = common.write_replay(ctx, 'tie', {'kind': 'tie', 'tie': facts_err.tie, 'detail': facts_err.detail[-3000:]})
+        raise Violation('T-facts broken: ' + facts_err.detail[-300:], replay, found_input=False)
     if ctx.thorough:
         common.leanchecker(ctx, ['Smtb.Properties.C03'])
 
